@@ -874,6 +874,10 @@ impl Engine {
             "op" => dispatch(id, OpVisitor { eng: self, case, out }).is_some(),
             "emp" => dispatch(id, EmpVisitor { eng: self, case, out }).is_some(),
             "iostream" | "iomsgs" => true,
+            "pscalar" => {
+                crate::portable::run_case(case, out);
+                true
+            }
             "iorecv" => {
                 let si = &case["si"];
                 match self.headers.iter().find(|h| h["k"] == "iostream" && &h["si"] == si) {
